@@ -362,10 +362,10 @@ func checkC07(e *Env) {
 	// interposer attributing every crypto/rand read to the goroutine that made it:
 	// each sentence must encode exactly the bytes delivered to its own goroutine
 	raceDrv := e.BuildDrv(true)
-	concProcs := e.pick(3, 24)
+	concProcs := e.pick(9, 36)
 	parallel(concProcs, max(1, e.Workers/4), func(ci int) {
 		r := rng.New(e.Seed, "C07-conc-"+itoa(ci))
-		c := &plan.Conc{GoMaxProcs: []int{1, 2, 8, 4, 3, 6}[ci%6]}
+		c := &plan.Conc{GoMaxProcs: []int{2, 8, 4, 16, 3, 6, 1}[ci%7]}
 		G := []int{8, 4, 16}[ci%3]
 		for w := 0; w < G; w++ {
 			var ops []plan.Op
